@@ -67,29 +67,37 @@ var outcomeNames = [...]string{"ok", "app-error", "client-deadline", "server-dea
 
 // Messages used as requests and replies (plain Go structs: the library reads
 // them by reflection along the configured path).
+//
+// Inner, Item and MsgB carry the struct tags protoc-gen-go writes (proto2 style:
+// "name=" is the last item; proto3 style: ",proto3" follows; with and without a
+// json= item): generated messages are what applications really pass. The proto
+// names equal the lower-cased Go names, so a library that resolved locators by
+// proto name would find the same fields.
 type Inner struct {
-	Name string
-	Num  int32
+	Name string `protobuf:"bytes,1,opt,name=name" json:"name,omitempty"`
+	Num  int32  `protobuf:"varint,2,opt,name=num,proto3" json:"num,omitempty"`
 }
-type Item struct{ Name string }
+type Item struct {
+	Name string `protobuf:"bytes,1,req,name=name"`
+}
 type Msg struct {
-	Name   string
-	Ключ   string // plan.UniField: the key field "name" is called "ключ" (locators and Go field names are not ASCII-only)
-	Nested *Inner
-	Names  []string
-	Items  []*Item
-	Num    int32
+	Name   string   `protobuf:"bytes,1,opt,name=name,proto3" json:"name,omitempty"`
+	Ключ   string   // plan.UniField: the key field "name" is called "ключ" (locators and Go field names are not ASCII-only)
+	Nested *Inner   `protobuf:"bytes,2,opt,name=nested"`
+	Names  []string `protobuf:"bytes,3,rep,name=names"`
+	Items  []*Item  `protobuf:"bytes,4,rep,name=items,proto3" json:"items,omitempty"`
+	Num    int32    `protobuf:"varint,5,opt,name=num"`
 }
 
 // MsgB has the fields of Msg in another order: two methods listed in ONE
 // configuration entry may well use differently laid-out message types.
 type MsgB struct {
-	Num    int32
-	Items  []*Item
-	Names  []string
-	Nested *Inner
-	Pad    string
-	Name   string
+	Num    int32    `protobuf:"varint,6,opt,name=num"`
+	Items  []*Item  `protobuf:"bytes,5,rep,name=items" json:"items,omitempty"`
+	Names  []string `protobuf:"bytes,4,rep,name=names,proto3" json:"names,omitempty"`
+	Nested *Inner   `protobuf:"bytes,3,opt,name=nested,json=nestedMessage"`
+	Pad    string   `protobuf:"bytes,7,opt,name=pad,def=x"`
+	Name   string   `protobuf:"bytes,1,opt,name=name"`
 	Ключ   string
 }
 
@@ -335,6 +343,7 @@ type Sim struct {
 	markLoad     []int
 	lastCallCtx  context.Context
 	degraded     bool // a SHUTDOWN for a live pool connection was delivered: crash/progress oracles only
+	overlap      bool // the operation just started was left running (FlagOverlap): no quiescence checks before the next one
 	resolverSent bool
 	keySeq       uint64
 	conc         bool // currently executing concurrently (burst); false in serial plans and after the burst
@@ -690,6 +699,12 @@ func (s *Sim) run() {
 		s.opIdx = i
 		s.src.Segment(i + 1)
 		s.exec(i, s.plan.Ops[i])
+		if s.overlap {
+			// not quiescent on purpose: the next operation finishes both
+			s.overlap = false
+			s.drain()
+			continue
+		}
 		s.afterOp()
 	}
 	if !s.stop && !k.Aborting() && s.Opts.Heal {
@@ -1247,6 +1262,14 @@ func (s *Sim) exec(i int, o Op) {
 		s.stepsAfter(o)
 	case OpDone:
 		s.completeCall(i, o)
+		if o.F&FlagOverlap != 0 && !s.conc && i+1 < len(s.plan.Ops) && s.plan.Ops[i+1].K == OpConn {
+			// the only overlap inside a serial plan: this completion and the
+			// connection report that follows it (the model knows, see kLo)
+			s.k.RunSteps(o.N)
+			s.overlap = true
+			env.Fired["completion_overlapping_the_next_connection_report"]++
+			return
+		}
 		s.stepsAfter(o)
 	case OpAdvance:
 		d := time.Duration(o.E) * time.Millisecond
@@ -1877,6 +1900,15 @@ func (s *Sim) completeCall(i int, o Op) {
 	c := fl[len(fl)-1] // A < 0: the most recent call in flight
 	if o.A >= 0 {
 		c = fl[o.A%len(fl)]
+	}
+	if o.A == -5 {
+		// the most recent call in flight that has no deadline
+		for j := len(fl) - 1; j >= 0; j-- {
+			if !fl[j].HasDeadline {
+				c = fl[j]
+				break
+			}
+		}
 	}
 	s.finishCall(i, c, o.B, s.keyNames(o.Keys))
 }
